@@ -392,8 +392,26 @@ func (s *sched) enabled() []action {
 						any = true
 						continue
 					}
+					// Direct hand-off from a blocked sender to a blocked
+					// receiver exists only on UNBUFFERED channels. On a
+					// buffered channel every value goes through the buffer:
+					// a receiver always takes the head, and a blocked
+					// sender's value enters behind whatever is queued.
+					// Pairing on a full buffered channel would let a value
+					// overtake the queue, which Go's FIFO guarantee forbids
+					// (it once produced a false deadlock in lib/rac, whose
+					// buffer accounting relies on that order).
+					if c.cap != 0 {
+						continue
+					}
 					for _, r := range s.gs {
 						if r == g || r.state != gBlocked || r.op != opChan {
+							continue
+						}
+						// A rendezvous needs one side to be WAITING when the
+						// other arrives, and a select with a default never
+						// waits: two such selects can never meet.
+						if g.hasDefault && r.hasDefault {
 							continue
 						}
 						for j, b := range r.alts {
@@ -407,13 +425,19 @@ func (s *sched) enabled() []action {
 					if len(c.buf) > 0 || c.closed {
 						out = append(out, action{kind: 1, g: g, alt: i})
 						any = true
-					} else {
-						// A matching blocked sender makes this select
-						// "enabled" for the purpose of its default clause;
-						// the pair itself is listed from the sender's side.
+					} else if c.cap == 0 {
+						// Unbuffered: a sender already blocked in its send
+						// makes this receive able to proceed, so a select's
+						// default must not be taken; the pair itself is
+						// listed from the sender's side. (Buffered: a pending
+						// sender has simply not sent yet, and default is a
+						// legal outcome.)
 						for _, sd := range s.gs {
 							if sd == g || sd.state != gBlocked || sd.op != opChan {
 								continue
+							}
+							if sd.hasDefault {
+								continue // it cannot be waiting in its send
 							}
 							for _, b := range sd.alts {
 								if b.kind == altSend && b.ch == c {
